@@ -61,7 +61,7 @@ ADD_PAGE = [T(FA, "LRUTrie.add_page", 4)]
 EDITS = [T(FA, "Traph.add_prefix_to_webentity", 4), T(FA, "Traph.remove_prefix_from_webentity", 6), T(FA, "Traph.move_prefix_to_webentity", 6)]
 IDS = [T(FA, "Traph.__generated_web_entity_id"), T(FA, "LRUTrieHeader.__init__")]
 RESOLVE = [T(FA, "Traph.retrieve_webentity"), T(FA, "Traph.retrieve_prefix")]
-READERS = [T(TR, "LRUTrie.lru_node", 8), T(TR, "LRUTrie.follow_lru", 8)]
+READERS = [T(TR, "LRUTrie.lru_node", 16), T(TR, "LRUTrie.follow_lru", 16)]
 WINDUP = [T(TR, "LRUTrie.windup_lru", 2)]
 COUNTS = [T(TR, "LRUTrie.count_pages"), T(TR, "LRUTrie.count_crawled_pages")]
 DFS = [T(TR, "LRUTrie.dfs_iter", 2), T(TR, "LRUTrie.pages_iter", 2)]
